@@ -25,6 +25,7 @@ import (
 	"verif/harness/ctr"
 	"verif/harness/env"
 	"verif/harness/h"
+	_ "verif/harness/warm"
 	"verif/harness/keys"
 	"verif/harness/tok"
 	"verif/harness/val"
